@@ -30,7 +30,12 @@ instance do not write x; an ndarray passed as x is not written; whatever the DOM
 to convert (20 kinds: wrong length/nesting/type, overflowing, None, dict, element of another
 space ...) -> OpDomainError, also together with a bad out; near-miss outs (other dtype /
 weighting / space kind / ndarray / list / component) -> OpRangeError; out with a functional ->
-TypeError.  A class counts as tested only after one successful op(x); op(x) raising on a valid
+TypeError.  RESULT OWNERSHIP: the caller overwrites the element returned by op(x) and reuses it
+as out; later op(x) / op(x, out=r) must give the same values and the result must not share
+memory with an attribute of the operator (results that are views of x are listed, not
+violations: the protocol text does not exclude them).  LAYOUT / SIZE: out and / or x
+Fortran-ordered or strided, 2-d spaces just above the BLAS threshold, bit for bit against C
+copies.  A class counts as tested only after one successful op(x); op(x) raising on a valid
 input is a violation, except NotImplementedError of classes without a `_call` (listed) and
 ValueError off the positive orthant when the positive draw succeeds (listed).  Callables passed
 to a discretised space execute user code and are not "malformed data".  Classes without a
@@ -265,6 +270,90 @@ def near_miss_outs(rng_space, rng):
         cands.append(('longer-power', odl.ProductSpace(rng_space[0], len(rng_space) + 1).zero()))
     rng.shuffle(cands)
     return cands
+
+
+def arrays_of(obj, depth=0):
+    """The ndarrays behind an element / array / container (no copies), one level deep."""
+    import odl
+    if isinstance(obj, np.ndarray):
+        return [obj]
+    if isinstance(obj, odl.set.space.LinearSpaceElement):
+        if isinstance(obj.space, odl.ProductSpace):
+            return [a for p in obj for a in arrays_of(p, depth)]
+        for attr in ('tensor', 'data'):
+            inner = getattr(obj, attr, None)
+            if isinstance(inner, np.ndarray):
+                return [inner]
+            if inner is not None and inner is not obj and attr == 'tensor':
+                return arrays_of(inner, depth)
+        return []
+    if depth == 0 and isinstance(obj, (list, tuple)):
+        return [a for o in obj for a in arrays_of(o, 1)]
+    if depth == 0 and isinstance(obj, dict):
+        return [a for o in obj.values() for a in arrays_of(o, 1)]
+    return []
+
+
+def shares(a_list, b_list):
+    for a in a_list:
+        for b in b_list:
+            try:
+                if a.size and b.size and np.shares_memory(a, b):
+                    return True
+            except Exception:
+                pass
+    return False
+
+
+def ownership_check(op, x, rng, same):
+    """RESULT OWNERSHIP: the caller may overwrite the element returned by op(x) (and reuse it as
+    `out`) without changing what the operator computes afterwards. Returns a list of
+    (check, text); `aliases-input` entries are informational (NumPy-like views of x, e.g.
+    RealPart / FlatteningOperator, are not excluded by the protocol text)."""
+    problems, info = [], []
+    mkx = (lambda: x.copy()) if hasattr(x, 'copy') else (lambda: x)
+    xa = mkx()
+    xa0 = snapshot(xa)
+    o1 = safe_call(op, xa)
+    if o1.status != 'ok' or not hasattr(o1.obj, 'space'):
+        return problems, info
+    r1, snap = o1.obj, o1.val.copy()
+    if not np.all(np.isfinite(snap)) if snap.dtype.kind in 'fc' else False:
+        return problems, info
+    state = [a for v in vars(op).values() for a in arrays_of(v)]
+    if shares(arrays_of(r1), state):
+        problems.append(('ownership-shares-operator-state',
+                         'the element returned by op(x) shares memory with an attribute of the '
+                         'operator: overwriting the result changes the operator'))
+    for round_ in (1, 2):
+        try:
+            r1.assign(filled(op.range, 'nan', rng))       # the caller overwrites ITS result
+        except Exception:
+            return problems, info
+        if not bitsame(snapshot(xa), xa0):
+            info.append('aliases-input')
+        o2 = safe_call(op, mkx())
+        if o2.status != 'ok' or not same(o2.val, snap):
+            problems.append(('ownership-later-call-changed',
+                             'after the caller overwrote the element returned by op(x), op(x) gives '
+                             '{} instead of {} (round {})'.format(
+                                 o2.val[:4] if o2.status == 'ok' else o2.status, snap[:4], round_)))
+            break
+        o3 = safe_call(op, mkx(), out=r1)                # ... and reuses it as out
+        if o3.status != 'ok' or not same(snapshot(r1), snap):
+            problems.append(('ownership-reuse-as-out',
+                             'op(x, out=r) with r the overwritten result of an earlier op(x) leaves '
+                             '{} instead of {} (round {})'.format(
+                                 snapshot(r1)[:4] if o3.status == 'ok' else o3.status, snap[:4],
+                                 round_)))
+            break
+        xa = mkx()
+        xa0 = snapshot(xa)
+        o1 = safe_call(op, xa)
+        if o1.status != 'ok':
+            break
+        r1 = o1.obj
+    return problems, info
 
 
 # ---------------------------------------------------------------------------
@@ -676,6 +765,14 @@ def check_instance(ctx, label, op, rng, deep=False, fixed=None):
                              'op(x) called twice gives different results: {} then {}'.format(
                                  ref.val[:4], again.val[:4] if again.status == 'ok'
                                  else again.status), xdesc))
+        if not functional and positive in (False, 'fixed'):
+            ctx.hit('ownership/result')
+            ctx.hit('ownership/result/' + type(op).__name__)
+            own, info = ownership_check(op, x, rng, same)
+            for chk, what in own:
+                problems.append((chk, what, xdesc))
+            if info:
+                ctx.extra.setdefault('result_is_a_view_of_x(informational)', {})[label] = True
         if functional:
             o = safe_call(op, x, out=ref.obj)
             if not o.status.startswith('err:type'):
@@ -1841,6 +1938,110 @@ def run_pso(ctx, count):
 
 
 # ---------------------------------------------------------------------------
+# layout / size stream (oracle only, tolerance-free): the default in-place paths go through
+# lincomb / assign / multiply of the space layer, whose BLAS branch depends on memory layout
+# and size. op(x, out=y) with y (and / or x) Fortran-ordered or wrapping a strided view, and on
+# 2-d spaces just above the BLAS threshold, must give bit for bit what op(x) gives on C copies.
+
+def layout_elem(space, arr, layout):
+    arr = np.asarray(arr, dtype=space.dtype).reshape(space.shape)
+    if layout == 'C':
+        data = np.ascontiguousarray(arr)
+    elif layout == 'F':
+        data = np.asfortranarray(arr)
+    else:       # strided view into a larger buffer
+        big = np.zeros(tuple(2 * k for k in space.shape), dtype=space.dtype)
+        view = big[tuple(slice(None, None, 2) for _ in space.shape)]
+        view[...] = arr
+        data = view
+    return space.element(data)
+
+
+def layout_ops(space, rng):
+    import odl
+    v = space.element(np.arange(space.size, dtype=float).reshape(space.shape) % 7 - 3)
+
+    class SynthOopOnly(odl.Operator):       # in-place goes through the default bridge (assign)
+        def _call(self, x):
+            return 2 * x + 1
+    return [
+        ('ScalingOperator', lambda: odl.ScalingOperator(space, 2.5)),
+        ('IdentityOperator', lambda: odl.IdentityOperator(space)),
+        ('OperatorVectorSum', lambda: odl.OperatorVectorSum(odl.ScalingOperator(space, -0.5), v)),
+        ('OperatorSum', lambda: odl.OperatorSum(odl.IdentityOperator(space),
+                                                odl.ScalingOperator(space, 3.0))),
+        ('OperatorLeftScalarMult', lambda: odl.OperatorLeftScalarMult(odl.PowerOperator(space, 2),
+                                                                      -2.0)),
+        ('SynthOopOnly', lambda: SynthOopOnly(space, space)),
+        ('MultiplyOperator', lambda: odl.MultiplyOperator(v)),
+        ('ConstantOperator', lambda: odl.ConstantOperator(v)),
+    ]
+
+
+def run_layouts(ctx, only=None):
+    import odl
+    import random
+    small = odl.rn((3, 4))
+    large = odl.rn((224, 224))          # 50176 entries: just above the BLAS threshold
+    plans = []
+    names = [nm for nm, _ in layout_ops(small, None)]
+    for nm in names:
+        for xl, yl in (('C', 'F'), ('F', 'C'), ('C', 'strided'), ('strided', 'F'), ('F', 'F')):
+            plans.append(('small', nm, xl, yl))
+    # large cases are sampled; the mixed-layout one on ScalingOperator is always among them
+    big = [('large', 'ScalingOperator', 'C', 'F')]
+    pool = [('large', nm, xl, yl) for nm in names
+            for xl, yl in (('C', 'F'), ('F', 'C'), ('C', 'C'), ('C', 'strided'))]
+    ctx.rng.shuffle(pool)
+    big += pool[:(3 if ctx.quick else 16)]
+    for size, nm, xl, yl in plans + big:
+        lseed = ctx.rng.getrandbits(48)
+        if only is not None:
+            if (size, nm, xl, yl) != tuple(only[:4]):
+                continue
+            lseed = only[4]
+        rng = random.Random(lseed)
+        space = small if size == 'small' else large
+        op = dict(layout_ops(space, rng))[nm]()
+        npr = np.random.RandomState(lseed % (2 ** 32))
+        xarr = npr.randint(-16, 17, size=space.shape) / 8.0
+        x_c = layout_elem(space, xarr, 'C')
+        ref = safe_call(op, x_c)
+        case = {'kind': 'layout', 'size': size, 'op': nm, 'x_layout': xl, 'out_layout': yl,
+                'lseed': lseed}
+        key = 'layout {} {} x={} out={}'.format(size, nm, xl, yl)
+        ctx.hit('layout/out-' + yl if yl != 'C' else 'layout/x-' + xl)
+        if size == 'large':
+            ctx.hit('size/large-2d')
+        ctx.case(('layout', size, nm, xl, yl) if ref.status == 'ok' else None)
+        if ref.status != 'ok':
+            ctx.violation(key + ' check=raises-on-valid-input', 'op(x) raises ' + ref.status, case)
+            continue
+        want = ref.val
+        x = layout_elem(space, xarr, xl)
+        y = layout_elem(space, np.full(space.shape, np.nan), yl)
+        o = safe_call(op, x, out=y)
+        if o.status != 'ok':
+            ctx.violation(key + ' check=in-place-raises', 'op(x, out=y) raises ' + o.status, case)
+            continue
+        got = snapshot(y)
+        if o.obj is not y:
+            ctx.violation(key + ' check=returns-out', 'op(x, out=y) did not return y', case)
+        if not bitsame(got, want):
+            bad = int(np.argmax(got != want))
+            ctx.violation(key + ' check=in-place-equals-oop',
+                          'op(x, out=y) with x {}-ordered and out {}-ordered differs from op(x) on '
+                          'C copies at flat index {}: got {!r}, op(x) gives {!r}'.format(
+                              xl, yl, bad, float(got[bad]), float(want[bad])), case)
+        if not bitsame(snapshot(x), np.asarray(xarr, dtype=float).ravel()):
+            ctx.violation(key + ' check=input-unchanged-ip', 'x modified by op(x, out=y)', case)
+        o2 = safe_call(op, x)          # out-of-place on the non-C input
+        if o2.status != 'ok' or not bitsame(o2.val, want):
+            ctx.violation(key + ' check=oop-layout', 'op(x) on a {}-ordered x differs from op(x) on '
+                          'its C copy'.format(xl), case)
+
+
+# ---------------------------------------------------------------------------
 # wrapper strata: every expression / product-space class with an in-place branch, called in
 # place (x and out DISTINCT) with a leaf directly underneath that obeys the call protocol but is
 # NOT alias safe, with and without the cached-temporary constructor arguments. A wrapper that
@@ -2107,7 +2308,9 @@ EXPECTED_BRANCHES = (
     ['dispatch/ip/' + o for o in ('ok', 'err:domain', 'err:range', 'err:value')] +
     ['dispatch/dual/' + o for o in ('ok', 'err:domain', 'err:range', 'err:type', 'err:value')] +
     ['wrapper-stratum/{}/{}'.format(w, l) for w in STRATA_WRAPPERS for l in STRATA_LEAVES] +
-    ['wrapper-stratum/{}/{}'.format(w, l) for w in STRATA_SHARED for l in STRATA_LINEAR_LEAVES])
+    ['wrapper-stratum/{}/{}'.format(w, l) for w in STRATA_SHARED for l in STRATA_LINEAR_LEAVES] +
+    ['layout/out-F', 'layout/out-strided', 'layout/x-F', 'size/large-2d', 'ownership/result'] +
+    ['ownership/result/' + c for c in MODELLED if c != 'InnerProductOperator'])
 
 
 def report_unhit(ctx):
@@ -2181,6 +2384,7 @@ def _run(ctx):
     run_trees(ctx, 150 if ctx.quick else 3000)
     run_pso(ctx, 120 if ctx.quick else 2000)
     run_wrapper_strata(ctx, 1 if ctx.quick else 6)
+    run_layouts(ctx)
     run_zoo(ctx, deep=not ctx.quick)
     if not ctx.quick:
         run_zoo(ctx, deep=True)   # further input draws for every instance
@@ -2223,6 +2427,11 @@ def replay(ctx, case):
     if case.get('kind') == 'dispatch':
         sub = Ctx2()
         run_dispatch(sub, cases=[{k: v for k, v in case.items() if k != 'kind'}], model=False)
+        return sub.violations[0]['what'] if sub.violations else None
+    if case.get('kind') == 'layout':
+        sub = Ctx2()
+        run_layouts(sub, only=(case['size'], case['op'], case['x_layout'], case['out_layout'],
+                               case['lseed']))
         return sub.violations[0]['what'] if sub.violations else None
     if case.get('kind') == 'stratum':
         sub = Ctx2()
